@@ -114,7 +114,7 @@ def entropy_of(rho):
 
 def random_state(bt, spec, seed, m):
     np.random.seed(seed % (2 ** 32))
-    qntot = int(spec["qntot"]) if spec.get("qn") else 0
+    qntot = L.qntot_of(spec)
     return TTNS.random(bt, qntot, m)
 
 
@@ -356,7 +356,7 @@ def run_spec(spec):
             pn = {}
             for i, descs in enumerate(spec["nodes"]):
                 bs = [nodes[i].basis_sets[j] for j in keep[i]] if descs else []
-                pn[i] = TreeNodeBasis(bs) if bs else TreeNodeBasis([BasisDummy(("pdummy", i))])
+                pn[i] = TreeNodeBasis(bs) if bs else TreeNodeBasis([L.dummy_basis(("pdummy", i), spec.get("qn"))])
             for i, ch in enumerate(spec["order"]):
                 for c in ch:
                     pn[i].add_child(pn[c])
@@ -403,6 +403,18 @@ def run_spec(spec):
     # norm
     chk("norm", lambda: close(a.add(b).ttns_norm, float(np.linalg.norm((da + db).ravel()))))
     chk("norm-coeff", lambda: close(ac.norm, float(np.linalg.norm(dac.ravel()))))
+
+    def c_normalize():
+        c = ac.copy()
+        c.coeff = 2.0
+        c.normalize("mps_and_coeff")
+        r = close(L.dense(c), dac / np.linalg.norm(dac.ravel()))
+        if not r[0]:
+            return r
+        c2 = ac.copy()
+        c2.normalize("mps_norm_to_coeff")
+        return close(L.dense(c2), dac)
+    chk("normalize", c_normalize)
     # RDMs / entropies of a complex state with every pair
     def c_obs():
         nonlocal nchk
@@ -518,6 +530,7 @@ def main():
     skipped = []
     checked = 0
     nspec = 0
+    nqn2 = 0
     for spec in payload.get("specs", []):
         try:
             n, fails, skip = run_spec(spec)
@@ -528,6 +541,8 @@ def main():
             skipped.append(skip[:80])
         else:
             nspec += 1
+            if L.qn_size(spec) == 2:
+                nqn2 += 1
         for k, (name, msg) in enumerate(fails):
             failures.append({"check": name, "spec": spec, "err": msg, "rank": k, "first": fails[0][0]})
     for ms in payload.get("mps", []):
@@ -543,7 +558,7 @@ def main():
         for k, (name, msg) in enumerate(fails):
             failures.append({"check": name, "spec": ms, "err": msg, "rank": k, "first": fails[0][0]})
     L.emit({"checked": checked + CONTRACT["n"], "specs_run": nspec, "skipped": skipped, "failures": failures,
-            "contract_checks": CONTRACT["n"], "contract_worst": CONTRACT["worst"]}, payload.get("out"))
+            "qn2_specs_run": nqn2, "contract_checks": CONTRACT["n"], "contract_worst": CONTRACT["worst"]}, payload.get("out"))
 
 
 if __name__ == "__main__":
